@@ -536,6 +536,8 @@ def run(ctx) -> None:
 def replay(ctx, case) -> None:
     if "filter_case" in case:
         check_filter_pair(ctx, case["filter_case"]["gateway"], case["filter_case"]["filter"])
+        ctx.case(("replay-filter", repr(case)), True, "replay:filter-pair")
     elif "gateways" in case:
         with _Patched() as loop:
-            check_scan(ctx, loop, {"gateways": case["gateways"], "filter": case["filter"], "secure": case["secure"]})
+            nontrivial = check_scan(ctx, loop, {"gateways": case["gateways"], "filter": case["filter"], "secure": case["secure"]})
+            ctx.case(("replay-scan", repr(case)), nontrivial, "replay:scan")
